@@ -140,6 +140,84 @@ fn rp64_merge_with_int_contract() {
     assert!(enc(v) != enc(w));
 }
 
+/// the documented sponge over base-field residues, written independently of hash_elements: 12 words, words
+/// 0..3 capacity, 4..11 rate; capacity word 0 starts as the number of residues; residues are added into
+/// the rate one by one, the permutation runs after every 8 and once more for a partial block (zero
+/// padding); the digest is words 4..7
+fn reference_sponge(residues: &[BaseElement]) -> ElementDigest {
+    let mut st = [BaseElement::ZERO; 12];
+    st[0] = new_stub(residues.len() as u64);
+    let mut filled = 0usize;
+    let mut k = 0usize;
+    while k < residues.len() {
+        st[4 + filled] = st[4 + filled] + residues[k];
+        filled += 1;
+        if filled == 8 {
+            perm_stub(&mut st);
+            filled = 0;
+        }
+        k += 1;
+    }
+    if filled > 0 {
+        perm_stub(&mut st);
+    }
+    ElementDigest::new([st[4], st[5], st[6], st[7]])
+}
+
+fn any_elements<const L: usize>() -> [BaseElement; L] {
+    let raw: [u64; L] = kani::any();
+    let mut els = [BaseElement::ZERO; L];
+    let mut i = 0;
+    while i < L {
+        kani::assume(raw[i] < M);
+        els[i] = BaseElement::from_mont(raw[i]);
+        i += 1;
+    }
+    els
+}
+
+/// hash_elements over L base-field elements equals the documented sponge
+fn hash_elements_is_reference_sponge<const L: usize>() {
+    let els = any_elements::<L>();
+    assert!(same(Rp64_256::hash_elements(&els), reference_sponge(&els)));
+}
+
+macro_rules! he {
+    ($name:ident, $l:expr) => {
+        #[kani::proof]
+        #[kani::unwind(20)]
+        #[kani::stub(BaseElement::new, new_stub)]
+        #[kani::stub(Rp64_256::apply_permutation, perm_stub)]
+        fn $name() {
+            hash_elements_is_reference_sponge::<$l>();
+        }
+    };
+}
+he!(rp64_hash_elements_len0_bounded, 0);
+he!(rp64_hash_elements_len1_bounded, 1);
+he!(rp64_hash_elements_len7_bounded, 7);
+he!(rp64_hash_elements_len8_bounded, 8);
+he!(rp64_hash_elements_len9_bounded, 9);
+he!(rp64_hash_elements_len16_bounded, 16);
+he!(rp64_hash_elements_len17_bounded, 17);
+
+/// hashing extension-field elements depends only on the residues: it equals the documented sponge over the
+/// flattened coefficient list (quadratic: 2 per element, cubic: 3 per element)
+#[kani::proof]
+#[kani::unwind(20)]
+#[kani::stub(BaseElement::new, new_stub)]
+#[kani::stub(Rp64_256::apply_permutation, perm_stub)]
+fn rp64_hash_elements_extension_typing_bounded() {
+    use math::fields::{CubeExtension, QuadExtension};
+    let c = any_elements::<6>();
+    let quad = [QuadExtension::new(c[0], c[1]), QuadExtension::new(c[2], c[3]), QuadExtension::new(c[4], c[5])];
+    assert!(same(Rp64_256::hash_elements(&quad), reference_sponge(&c)));
+    let cube = [CubeExtension::new(c[0], c[1], c[2]), CubeExtension::new(c[3], c[4], c[5])];
+    assert!(same(Rp64_256::hash_elements(&cube), reference_sponge(&c)));
+    let one = [QuadExtension::new(c[0], BaseElement::ZERO)];
+    assert!(same(Rp64_256::hash_elements(&one), reference_sponge(&[c[0], BaseElement::ZERO])));
+}
+
 #[kani::proof]
 #[kani::unwind(16)]
 #[kani::stub(BaseElement::new, new_stub)]
